@@ -105,6 +105,11 @@ func setupRoutes(module *ast.Module, filePath string, forceInterpreter ...bool) 
 		useCompiler = false
 	}
 	compiledRoutes = make(map[string][]byte)
+	// compiledRoutes is keyed by path only, so two declarations that share a
+	// path (GET /x and POST /x, or the same route declared twice) overwrite
+	// each other there. Registration uses the per-declaration table below so
+	// every route keeps its own body.
+	routeBytecode := make(map[*ast.Route][]byte)
 
 	// Any provider injection forces interpreter mode: the VM cannot execute
 	// provider method calls, so a compiled route fails at request time with
@@ -152,6 +157,7 @@ func setupRoutes(module *ast.Module, filePath string, forceInterpreter ...bool) 
 					break
 				}
 				compiledRoutes[route.Path] = bytecode
+				routeBytecode[route] = bytecode
 			}
 		}
 	}
@@ -171,7 +177,7 @@ func setupRoutes(module *ast.Module, filePath string, forceInterpreter ...bool) 
 	if useCompiler {
 		for _, item := range module.Items {
 			if route, ok := item.(*ast.Route); ok {
-				bytecode := compiledRoutes[route.Path]
+				bytecode := routeBytecode[route]
 				regErr := registerCompiledRoute(router, route, bytecode, wsServer.GetHub())
 				if regErr != nil {
 					printWarning(fmt.Sprintf("Failed to register route %s: %v", route.Path, regErr))
